@@ -99,6 +99,42 @@ theorem ESim.build {s : String} {args : List Expr} {q : Query} (p : Bool) (h : b
             · cases h
         · cases h
 
+theorem variadicName_name (b : Builtin) : variadicName b.name = b.variadic.isSome := by
+  cases b <;> decide
+
+theorem ofName_name {s : String} {b : Builtin} (h : Builtin.ofName s = some b) : b.name = s := by
+  have := List.find?_some (by simpa [Builtin.ofName] using h)
+  simpa using this
+
+/-- what the guard of the no-argument rewrite knows about the symbol -/
+theorem tableArgcV_pos {s : String} {n : Nat} (h : tableArgcV s = some n) (hn : n > 0) :
+    ∃ b, Builtin.ofName s = some b ∧ b.variadic = none ∧ b.arity > 0 := by
+  unfold tableArgcV argcOf at h
+  cases hc : tableCount s with
+  | none => simp [hc] at h
+  | some m =>
+    simp only [hc, Option.map_some, Option.some.injEq] at h
+    cases hvn : variadicName s with
+    | true => simp [hvn] at h; omega
+    | false =>
+      simp only [hvn, Bool.false_eq_true, if_false] at h
+      subst h
+      simp only [variadicName, Bool.or_eq_false_iff, beq_eq_false_iff_ne, ne_eq] at hvn
+      have hc' : tableArgc s = some m := by simpa [tableCount, hvn.1, hvn.2] using hc
+      unfold tableArgc at hc'
+      cases hb : Builtin.ofName s with
+      | none => simp [hb] at hc'
+      | some b =>
+        simp only [hb, Option.map_some, Option.some.injEq] at hc'
+        refine ⟨b, rfl, ?_, by omega⟩
+        have h1 := variadicName_name b
+        rw [ofName_name hb] at h1
+        have h2 : variadicName s = false := by simp [variadicName, hvn.1, hvn.2]
+        rw [h2] at h1
+        cases hvv : b.variadic with
+        | none => rfl
+        | some t => simp [hvv] at h1
+
 theorem simpArgs_sim (simp : Expr → Option (Expr × Expr))
     (hs : ∀ e s m, e.lambdaFree = true → simp e = some (s, m) → ESim s e ∧ ESim m e) :
     ∀ (as as' : List Expr), Expr.lambdaFrees as = true → simpArgsWith simp as = some as' → ESims as' as
@@ -119,7 +155,7 @@ theorem simpArgs_sim (simp : Expr → Option (Expr × Expr))
         exact ESims.cons (hs a a' ma hl.1 h1).1 (simpArgs_sim simp hs as rest hl.2 h2)
 
 theorem simplifyBoth_sim : ∀ (fuel : Nat) (e s m : Expr), e.lambdaFree = true →
-    simplifyBoth tableArgc fuel e = some (s, m) → ESim s e ∧ ESim m e
+    simplifyBoth tableArgcV fuel e = some (s, m) → ESim s e ∧ ESim m e
   | 0, _, _, _, _, h => by simp [simplifyBoth] at h
   | fuel + 1, e, s, m, hl, h => by
     have ih := simplifyBoth_sim fuel
@@ -135,11 +171,11 @@ theorem simplifyBoth_sim : ∀ (fuel : Nat) (e s m : Expr), e.lambdaFree = true 
     | call f args p =>
       simp only [Expr.lambdaFree, Bool.and_eq_true] at hl
       simp only [simplifyBoth, simpCall] at h
-      cases h1 : simplifyBoth tableArgc fuel f with
+      cases h1 : simplifyBoth tableArgcV fuel f with
       | none => simp [h1] at h
       | some r =>
         obtain ⟨f', mf⟩ := r
-        cases h2 : simpArgsWith (simplifyBoth tableArgc fuel) args with
+        cases h2 : simpArgsWith (simplifyBoth tableArgcV fuel) args with
         | none => simp [h1, h2] at h
         | some args' =>
           simp only [h1, h2, Option.map_eq_some_iff] at h
@@ -148,9 +184,9 @@ theorem simplifyBoth_sim : ∀ (fuel : Nat) (e s m : Expr), e.lambdaFree = true 
           subst hs1; subst hs2
           obtain ⟨hf1, hf2⟩ := ih f f' mf hl.1 h1
           have ha := simpArgs_sim _ ih args args' hl.2 h2
-          have hlf := B6.Lemmas.EvalGuards.simplifyBoth_lambdaFree tableArgc fuel f f' mf hl.1 h1
+          have hlf := B6.Lemmas.EvalGuards.simplifyBoth_lambdaFree tableArgcV fuel f f' mf hl.1 h1
           refine ⟨?_, ESim.call p p hf2 ha⟩
-          have hF : ESim (pickFunction tableArgc f f' mf) f := by
+          have hF : ESim (pickFunction tableArgcV f f' mf) f := by
             unfold pickFunction
             split
             · exact hf1
@@ -158,8 +194,8 @@ theorem simplifyBoth_sim : ∀ (fuel : Nat) (e s m : Expr), e.lambdaFree = true 
               · exact hf1
               · exact hf2
             · exact hf1
-          have hFl := B6.Lemmas.EvalGuards.pickFunction_lambdaFree tableArgc f f' mf hlf.1 hlf.2
-          generalize pickFunction tableArgc f f' mf = F at hp hF hFl
+          have hFl := B6.Lemmas.EvalGuards.pickFunction_lambdaFree tableArgcV f f' mf hlf.1 hlf.2
+          generalize pickFunction tableArgcV f f' mf = F at hp hF hFl
           have hcall : ESim (.call F args' p) (.call f args p) := ESim.call p p hF ha
           unfold postCall at hp
           split at hp
@@ -170,12 +206,8 @@ theorem simplifyBoth_sim : ∀ (fuel : Nat) (e s m : Expr), e.lambdaFree = true 
               split at hp
               · rename_i hpos
                 injection hp with hp; subst hp
-                unfold tableArgc at hn
-                cases hb : Builtin.ofName x with
-                | none => simp [hb] at hn
-                | some b =>
-                  simp only [hb, Option.map_some, Option.some.injEq] at hn
-                  exact ESim.trans (ESim.noarg p hb (by omega)) hcall
+                obtain ⟨b, hb, hv, ha⟩ := tableArgcV_pos hn hpos
+                exact ESim.trans (ESim.noarg p hb hv ha) hcall
               · injection hp with hp; subst hp; exact hcall
             · injection hp with hp; subst hp; exact hcall
           · simp [Expr.lambdaFree] at hFl
